@@ -1,6 +1,7 @@
 package main
 
 import (
+	"fmt"
 	"go/types"
 
 	"golang.org/x/tools/go/ssa"
@@ -25,6 +26,21 @@ func (vc *VC) frameEnv(fr *Frame, st *State, at *ssa.BasicBlock, sub map[ssa.Val
 
 // evalClause evaluates a loop clause at the entry of block at (after phis), with phi substitution sub.
 func (vc *VC) evalClause(fr *Frame, st *State, c *Clause, at *ssa.BasicBlock, sub map[ssa.Value]Val) Term {
+	if phi, ok := c.Implicit.(*ssa.Phi); ok {
+		var v Val
+		if sub != nil {
+			if x, ok := sub[phi]; ok {
+				v = x
+			}
+		}
+		if v.T.T == nil {
+			v = vc.operand(fr, st, phi)
+		}
+		if vc.mode == ModeBV {
+			return mk(fmt.Sprintf("(and (bvsge %s (bvneg (_ bv1 64))) (bvslt %s #x4000000000000000))", v.T.S, v.T.S), sortBool)
+		}
+		return mk(fmt.Sprintf("(and (>= %s (- 1)) (< %s 4611686018427387904))", v.T.S, v.T.S), sortBool)
+	}
 	return vc.evalSpecBool(vc.frameEnv(fr, st, at, sub), c)
 }
 
